@@ -4,9 +4,10 @@ import PPProofs.Props.C10
 #print axioms PP.PR.refines_history
 #print axioms PP.PR.prinv_of_ctor
 #print axioms PP.PR.prinv_of_reinit
+#print axioms PP.PR.reinit_refines
 #print axioms PP.PR.list_ops_keep_names
 #print axioms PP.PR.del_insert_keep_names
 #print axioms PP.PR.unknown_attr_empty
-#print axioms PP.PR.iadd_refines_iff
-#print axioms PP.PR.iadd_falsy_shortcut_deviates
+#print axioms PP.PR.iadd_is_merge
+#print axioms PP.PR.iadd_falsy_keeps_listall
 #print axioms PP.PR.contains_is_not_list_membership
